@@ -816,3 +816,90 @@ def h_default_isolation(case):
                         "case": {"seed": sd, "idx": idx}})
     return {"bad": bad[:3], "counts": counts, "key": chash(["default-isolation", which, eq, edits, how]), "nontrivial": True,
             "sample": {"seed": sd, "idx": idx, "class": which, "edits": edits, "how": how}}
+
+
+# ---------------------------------------------------------------------------------------------------------------
+# C13 / C12 / C14 / C04: a key left out of a dictionary means the documented default of the constructor
+
+def h_dict_defaults(case):
+    """For every reader: the object read from a dictionary that leaves an optional key out equals the object the constructor
+    builds without that argument IN THE SAME UNITS SYSTEM (volume 1, surface 1, distance 1, D 0, density 0, k 0, time_step
+    1e-3, sampling_interval 1 - all in the object's own units -, environment 0, 'reflecting', 'on_t_sample', 'auto',
+    t_max = last requested time), whatever units the parent level has."""
+    use_repo()
+    import strengths as st
+    sd, idx = case["seed"], case["idx"]
+    r = gen.rng_for(sd, "Hdictdefaults", idx)
+    own = gen.rand_sys(r)
+    parent = gen.rand_sys(r)
+    how = r.choice(["declared", "inherited"])
+    eff = own if how == "declared" else parent
+    U = lambda s3: st.UnitsSystem(**si.sys_dict(s3))
+    ukey = r.choice(["units", "u", "units_system", "units system"])
+    bad, counts = [], {}
+
+    def with_units(d):
+        if how == "declared":
+            d[ukey] = si.sys_dict(own)
+        return d
+
+    def si_of(uv):
+        return float(uv.value) * float(si.scale(si.sys_of(uv.units.sys), si.dim_of(uv.units.dim)))
+
+    def same(name, a, b):
+        counts["dict_default_checks"] = counts.get("dict_default_checks", 0) + 1
+        ok = (a == b) if not isinstance(a, float) else (abs(a - b) <= 1e-12 * abs(b) if b else a == 0)
+        if not ok:
+            bad.append({"what": "a key left out of a dictionary does not mean the constructor's documented default", "object": kind, "field": name,
+                        "from_dictionary": a, "constructor_default": b, "units": list(eff), "units_declared": how, "case": {"seed": sd, "idx": idx}})
+    kind = case.get("which") or r.choice(["node", "edge", "grid", "species", "reaction", "script"])
+    counts["dict_defaults:" + kind] = 1
+    try:
+        if kind == "node":
+            from strengths.rdgraphspace import rdgraphspacenode_from_dict
+            o = rdgraphspacenode_from_dict(with_units({}), parent_units_system=U(parent))
+            c = st.RDGraphSpaceNode(units_system=U(eff))
+            same("volume", si_of(o.volume), si_of(c.volume)), same("environment", int(o.environment), int(c.environment))
+        elif kind == "edge":
+            from strengths.rdgraphspace import rdgraphspaceedge_from_dict
+            o = rdgraphspaceedge_from_dict(with_units({"nodes": [0, 1]}), parent_units_system=U(parent))
+            c = st.RDGraphSpaceEdge(0, 1, units_system=U(eff))
+            same("surface", si_of(o.surface), si_of(c.surface)), same("distance", si_of(o.distance), si_of(c.distance))
+        elif kind == "grid":
+            from strengths.rdgridspace import rdgridspace_from_dict
+            o = rdgridspace_from_dict(with_units({"w": 2}), parent_units_system=U(parent))
+            c = st.RDGridSpace(w=2, units_system=U(eff))
+            same("cell_vol", si_of(o.cell_vol), si_of(c.cell_vol)), same("h", o.h, c.h), same("d", o.d, c.d)
+            same("boundary_conditions", dict(o.boundary_conditions) if hasattr(o, "boundary_conditions") else None,
+                 dict(c.boundary_conditions) if hasattr(c, "boundary_conditions") else None)
+            same("cell_env", [int(x) for x in o.get_cell_env_array()], [int(x) for x in c.get_cell_env_array()])
+        elif kind == "species":
+            from strengths.rdnetwork import species_from_dict
+            o = species_from_dict(with_units({"label": "A"}), parent_units_system=U(parent))
+            c = st.Species("A", units_system=U(eff))
+            same("D", si_of(o.D), si_of(c.D)), same("density", si_of(o.density), si_of(c.density)), same("chstt", bool(o.chstt), bool(c.chstt))
+        elif kind == "reaction":
+            from strengths.rdnetwork import reaction_from_dict
+            eq = r.choice(["A + B -> C", "A -> B", "2 A -> "])
+            o = reaction_from_dict(with_units({"stoichiometry": eq}), parent_units_system=U(parent))
+            c = st.Reaction(eq, units_system=U(eff))
+            same("kf", si_of(o.kf), si_of(c.kf)), same("kr", si_of(o.kr), si_of(c.kr))
+        else:
+            from strengths.rdscript import rdscript_from_dict
+            sysd = {"network": {"species": [{"label": "A", "density": 1}]}}
+            ts = [0, 0.5, 2.5]
+            how_s = r.choice(["declared", "default"])
+            d = {"system": sysd, "t_sample": ts}
+            if how_s == "declared":
+                d[ukey] = si.sys_dict(own)
+            o = rdscript_from_dict(d)
+            net = st.RDNetwork([st.Species("A", density=1)], [])
+            c = st.RDScript(st.RDSystem(net, st.RDGridSpace()), t_sample=ts, units_system=U(own) if how_s == "declared" else st.UnitsSystem())
+            same("time_step", si_of(o.time_step), si_of(c.time_step)), same("sampling_interval", si_of(o.sampling_interval), si_of(c.sampling_interval))
+            same("t_max", si_of(o.t_max), si_of(c.t_max)), same("sampling_policy", o.sampling_policy, c.sampling_policy)
+            same("init_state_processing", o.init_state_processing, c.init_state_processing)
+    except Exception as e:
+        bad.append({"what": "a dictionary without its optional keys was refused (or the constructor without its optional arguments)", "object": kind,
+                    "error": "%s: %s" % (type(e).__name__, e), "case": {"seed": sd, "idx": idx}})
+    return {"bad": bad[:3], "counts": counts, "key": chash(["dict-defaults", kind, own, parent, how, ukey]), "nontrivial": True,
+            "sample": {"seed": sd, "idx": idx, "object": kind, "units": list(eff), "declared_or_inherited": how}}
